@@ -172,7 +172,8 @@ int main(int argc, char** argv) {
   o.check_c01 = prop == "C01" || prop == "all";
   o.check_c02 = prop == "C02" || prop == "all";
   o.check_c10 = prop == "C10" || prop == "all";
-  o.check_c08 = prop == "C08";
+  o.check_c08 = prop == "C08" || prop == "C14";
+  o.c08_fatal = prop == "C08";   // C14: only "a lock was left held after a failed operation" (process exit 43) counts
   o.k1_exclusion = !a.has("no-k1");
   o.collect = true;
 
@@ -220,7 +221,7 @@ int main(int argc, char** argv) {
   const std::uint64_t cases = a.u64("cases", 100);
   gen_params gp;
   gp.size = static_cast<unsigned>(a.u64("size", 200));
-  gp.fl = prop == "C02" ? F_SCAN : prop == "C10" ? F_SHAPE : prop == "C08" ? F_FAULT : F_POINT;
+  gp.fl = prop == "C02" ? F_SCAN : prop == "C10" ? F_SHAPE : (prop == "C08" || prop == "C14") ? F_FAULT : F_POINT;
   std::vector<int> cfgs;
   {
     std::string s = a.str("cfgs", "0,1,2,3,4,5");
@@ -259,7 +260,7 @@ int main(int argc, char** argv) {
       if (v.k1_excluded) st.inc("cases_with_k1_exclusion");
       st.inc("faults", v.faults);
       st.inc("faults_k2plus", v.faults_k2plus);
-      if (prop == "C08") {
+      if (prop == "C08" || prop == "C14") {
         if (v.faults_k2plus) st.add_nontrivial(case_hash(c));
       } else if (prop == "C02") {
         st.inc("nontrivial_scans", v.nontrivial_scans);
